@@ -1426,7 +1426,7 @@ def compile_pattern(compiler, pattern):
             )
         )
 
-    if str(value) in ("None", "True", "False"):
+    if isinstance(value, Symbol) and str(value) in ("None", "True", "False"):
         return asty.MatchSingleton(
             value,
             value=compiler.compile(value).force_expr.value,
@@ -1441,10 +1441,13 @@ def compile_pattern(compiler, pattern):
     elif isinstance(value, Symbol):
         return compiler.scope.assign(asty.MatchAs(value, name=mangle(value)))
     elif isinstance(value, Expression) and value[0] == Symbol("|"):
-        return asty.MatchOr(
-            value,
-            patterns=[compile_pattern(compiler, v) for v in value[1]],
-        )
+        patterns = [compile_pattern(compiler, v) for v in value[1]]
+        if not patterns:
+            compiler._syntax_error(value, "`|` needs at least one pattern")
+        if len(patterns) == 1:
+            # Python requires at least two alternatives.
+            return patterns[0]
+        return asty.MatchOr(value, patterns=patterns)
     elif isinstance(value, Expression) and value[0] == Symbol("."):
         root, syms = value
         dotform = mkexpr(root, *syms).replace(value)
